@@ -227,16 +227,22 @@ a rewrite that preserves the behaviour keeps them provable, a changed comparison
 section Translated
 open Firebolt.MiniGo Firebolt.TransBase
 
-/-- the candidate-building iteration of RefreshAssignments: one lookup in the tracker, one in the active map, and the
-resume offset `candFrom` (progress of the same request is kept, progress of another request is not — F10) -/
+/-- the candidate-building iteration of RefreshAssignments: one lookup in the tracker, one in the active map; for an
+outstanding request the candidate is built from the resume offset `candFrom` (progress of the same request is kept, progress
+of another request is not — F10) and the request's `to`, and stored under the partition -/
 theorem translated_refreshCandidateBody (σ : Env) :
     let r := run Trans.refreshCandidateBody σ
+    let f := candFrom (σ "lookup rc.activePartitionMap#1" != 0) (σ "recoveryState.fromOffset") (σ "recoveryState.toOffset")
+                              (σ "recoveryRequest.FromOffset") (σ "recoveryRequest.ToOffset")
     r.stuck = false ∧ r.ret = none ∧
-    r.calls = [("rc.tracker.GetRecoveryRequest", [σ "partition.Partition"]), ("lookup rc.activePartitionMap", [σ "partition.Partition"])] ∧
-    (σ "rc.tracker.GetRecoveryRequest#0" = 0 → r.env "recoveryCandidates[partition.Partition]" = σ "recoveryCandidates[partition.Partition]") ∧
-    (σ "rc.tracker.GetRecoveryRequest#0" ≠ 0 →
-      r.env "fromOffset" = candFrom (σ "lookup rc.activePartitionMap#1" != 0) (σ "recoveryState.fromOffset") (σ "recoveryState.toOffset")
-                              (σ "recoveryRequest.FromOffset") (σ "recoveryRequest.ToOffset")) := by
+    r.calls = [("rc.tracker.GetRecoveryRequest", [σ "partition.Partition"]), ("lookup rc.activePartitionMap", [σ "partition.Partition"])] ++
+      (if σ "rc.tracker.GetRecoveryRequest#0" = 0 then [] else
+        [("new kafka.TopicPartition {Topic,Partition,Offset}", [σ "partition.Topic", σ "partition.Partition", f]),
+         ("new partitionRecoveryState {partition,fromOffset,toOffset}",
+            [σ "new kafka.TopicPartition {Topic,Partition,Offset}#0", f, σ "recoveryRequest.ToOffset"])]) ∧
+    (r.env "recoveryCandidates[partition.Partition]" =
+      if σ "rc.tracker.GetRecoveryRequest#0" = 0 then σ "recoveryCandidates[partition.Partition]"
+      else σ "new partitionRecoveryState {partition,fromOffset,toOffset}#0") := by
   by_cases h0 : σ "rc.tracker.GetRecoveryRequest#0" = 0 <;>
   by_cases h1 : σ "lookup rc.activePartitionMap#1" = 0 <;>
   by_cases h2 : σ "recoveryState.toOffset" = σ "recoveryRequest.ToOffset" <;>
